@@ -4,6 +4,7 @@
 package simstore
 
 import (
+	"runtime"
 	"context"
 	"errors"
 	"fmt"
@@ -51,6 +52,9 @@ type DSConfig struct {
 	StallLatency time.Duration
 	IterLatency bool // also delay each Next (only safe when no sync.Mutex is held across Next; see DESIGN §1.3)
 	MaxFaults   int  // cap on fired faults per run (0 = unlimited)
+	// PanicOnlyIn restricts injected panics to calls whose stack contains one of these substrings
+	// (e.g. "listobjects/pipeline": only goroutines of the pipeline, which promise to recover).
+	PanicOnlyIn []string
 }
 
 // OpInfo describes an intercepted storage operation.
@@ -206,11 +210,29 @@ func (d *DS) enter(ctx context.Context, op, store, sig string, isWrite bool) (Op
 		d.run.Log("fault", name+" "+req+" "+sig)
 		return info, ErrSimIO
 	}
-	if d.cfg.Faults&FaultPanic != 0 && d.run.Chance(d.cfg.FaultRate/2, "panic", req, sig, occ) && d.fire("panic") {
+	// panics are injected into tuple reads only: those run on the engine's own goroutines, whose
+	// panic handling is what the properties are about (a panic in the caller's goroutine is the gRPC
+	// recovery interceptor's business, which the harness does not run)
+	tupleRead := op == "Read" || op == "ReadUsersetTuples" || op == "ReadStartingWithUser" || op == "ReadUserTuple"
+	if tupleRead && d.cfg.Faults&FaultPanic != 0 && d.run.Chance(d.cfg.FaultRate/2, "panic", req, sig, occ) && d.panicAllowedHere() && d.fire("panic") {
 		d.run.Log("fault", "panic "+req+" "+sig)
 		panic("sim: datastore panic in " + op)
 	}
 	return info, nil
+}
+
+func (d *DS) panicAllowedHere() bool {
+	if len(d.cfg.PanicOnlyIn) == 0 {
+		return true
+	}
+	buf := make([]byte, 16<<10)
+	st := string(buf[:runtime.Stack(buf, false)])
+	for _, p := range d.cfg.PanicOnlyIn {
+		if strings.Contains(st, p) {
+			return true
+		}
+	}
+	return false
 }
 
 func refsString(refs []*openfgav1.RelationReference) string {
@@ -287,7 +309,7 @@ func (s *simIter) step(ctx context.Context) error {
 		s.d.run.Log("fault", fmt.Sprintf("iter_err %s %s pos=%d", s.info.Req, s.info.Sig, s.n))
 		return ErrSimIO
 	}
-	if s.panicAt > 0 && s.n == s.panicAt && s.d.fire("iter_panic") {
+	if s.panicAt > 0 && s.n == s.panicAt && s.d.panicAllowedHere() && s.d.fire("iter_panic") {
 		s.d.run.Log("fault", fmt.Sprintf("iter_panic %s %s pos=%d", s.info.Req, s.info.Sig, s.n))
 		panic("sim: iterator panic")
 	}
